@@ -2,6 +2,7 @@
 # usage: applycheck.sh [patch files...]   (default: every corpus patch)
 # Confirms that each corpus patch applies to /repo's current tree AND that the patched root module still builds
 # (a patch can apply textually and no longer compile after a fix: in /repo changed a line it relies on).
+export GODICHECK_SWEEP_CACHE=$(mktemp -d /tmp/godicheck-sweep-cache.XXXXXX); trap 'rm -rf "$GODICHECK_SWEEP_CACHE"' EXIT
 cd "$(dirname "$0")/.."
 export GOFLAGS=-mod=mod GOPROXY=off GOWORK=off
 export GOCACHE=${GODICHECK_SWEEP_CACHE:-/tmp/godicheck-sweep-cache}; mkdir -p "$GOCACHE"
@@ -19,4 +20,3 @@ export -f one
 files=("$@"); [ ${#files[@]} -eq 0 ] && files=(seeded/*/patch.diff mutants/*.diff refactors/*/patch.diff repairs/*/patch.diff features/*/patch.diff)
 printf '%s\n' "${files[@]}" | xargs -P 8 -I{} bash -c 'one "$@"' _ "$(pwd)/{}" | sed "s#$(pwd)/##" | sort
 echo "applycheck: ${#files[@]} patches examined"
-rm -rf "${GODICHECK_SWEEP_CACHE:-/tmp/godicheck-sweep-cache}"
